@@ -352,6 +352,13 @@ def install(fault=None):
             ms = ms[0]
         return [type(m).__name__ for m in ms]
 
+    def inst_attrs(ms):
+        # how each instance is configured (e.g. ident='assert')
+        if isinstance(ms, tuple):
+            ms = ms[0]
+        return [{k: v for k, v in vars(m).items()
+                 if isinstance(v, (str, int, bool))} for m in ms]
+
     def get_passes():
         res = real_get_passes()
         emit('passes', strat='hier', passes=[cls_names(p) for p in res],
@@ -375,7 +382,8 @@ def install(fault=None):
     def prod_init(self, muts, abort_flag, original, *a, **kw):
         real_prod_init(self, muts, abort_flag, original, *a, **kw)
         self._verif_original = original
-        emit('sweep', muts=cls_names(muts), base=toks(original),
+        emit('sweep', muts=cls_names(muts), mattrs=inst_attrs(muts),
+             base=toks(original),
              distinct=distinct_ids(original), nnodes=nodes.count_nodes(original),
              **light(original))
 
